@@ -68,6 +68,8 @@ VALUES = [
          g="ffffffff-ffff-ffff-ffff-ffffffffffff"),
     dict(s="'\"; DROP TABLE blogpost; --'", s2="''", i="0", i2="3", f="3.0", f2="7.75", d="2024-02-29", dt="2024-02-29T00:00:00Z",
          g="00000000-0000-0000-0000-000000000000"),
+    dict(s="'50%_off'", s2="'a_b%'", i="-5", i2="9223372036854775808", f="-0.5", f2="123456.789", d="2000-02-29", dt="2000-02-29T12:00:00+02:00",
+         g="12345678-90ab-cdef-1234-567890abcdef"),
 ]
 problems, compiled, refused = [], 0, 0
 for b in ("django", "sa_orm", "sa_core"):
@@ -144,6 +146,8 @@ def evidence(facts, results):
                 "a placeholder plus a parameter; every other Django / SQLAlchemy constructor compiles to SQL text that is a function of "
                 "its non-binder arguments only (exercised by the bounded family compile-pairs, not proved)",
                 "external calls are total, deterministic constructors; attribute reads on their results are projections",
+                "operands of SQLAlchemy column-operator methods (contains, startswith, like, in_, ...) and of Python operators applied to ORM "
+                "expressions are coerced to bound parameters by the ORM (documented behaviour; assumed)",
                 "Boolean literals are outside the property's quantifier (rendered as keywords by SQLAlchemy)",
                 "visit_CollectionLambda of Django and SQLAlchemy ORM is out of reach (model-meta API in loops); its lambda body is "
                 "translated by the same visit, under contract",
